@@ -21,10 +21,6 @@ structure Expected where
   reason : String
 
 def expected : List Expected := [
-  ⟨⟨"expand", "arith.go", "*Config.assgnArit", "assert", "b.X.(*syntax.Word)", 1⟩,
-    "UNREACHABLE-PARSER: the parser reports '= must follow a name' unless isArithName(X), which implies X is a *Word (model: isArithName); an *indexed* name passes and yields an empty name: see lookupVar, C28-arith-lvalue-index"⟩,
-  ⟨⟨"expand", "arith.go", "Arithm", "assert", "expr.X.(*syntax.Word)", 1⟩,
-    "REACHABLE: C28-preinc-postinc — `$((++x++))`: the operand of a prefix ++/-- may be a postfix UnaryArithm (model: arithLvalue .unary, theorem arith_prefix_counterexample)"⟩,
   ⟨⟨"expand", "arith.go", "Arithm", "assert", "expr.Y.(*syntax.BinaryArithm)", 1⟩,
     "UNREACHABLE-PARSER: a TernQuest node is only built with a TernColon BinaryArithm as Y ('ternary operator missing :' otherwise)"⟩,
   ⟨⟨"expand", "arith.go", "Arithm", "panic", "\"unexpected arithm expr: %T\"", 1⟩,
@@ -77,8 +73,6 @@ def expected : List Expected := [
     "REACHABLE: C28-assoc-index-not-word — `declare -A a=([1+2]=x)`"⟩,
   ⟨⟨"interp", "vars.go", "*Runner.assignVal", "panic", "\"unexpected conversion of kind %d\"", 1⟩,
     "UNREACHABLE-INTERNAL: the enclosing switch handles every ValueKind a variable can have when appended to (Unknown, String, Indexed, Associative; NameRef is resolved before)"⟩,
-  ⟨⟨"interp", "vars.go", "*Runner.lookupVar", "panic", "\"variable name must not be empty\"", 1⟩,
-    "REACHABLE: C28-arith-lvalue-index (`((a[1]++))`, theorem arith_name_counterexample), C28-empty-variable-name (`unset ''`, `[[ -v \"\" ]]`) and C28-empty-nameref-target (`declare -n foo=; echo $foo`)"⟩,
   ⟨⟨"interp", "vars.go", "*overlayEnviron.Set", "assert", "o.parent.(expand.WriteEnviron)", 1⟩,
     "UNREACHABLE-INTERNAL: the branch is taken only for funcScope overlays, which Runner.call creates with r.writeEnv (always a WriteEnviron) as parent"⟩
 ]
